@@ -16,7 +16,7 @@
    [jacobi_svd : dmat -> svd_res]; the model's oracles are the readings [inverse_of_src] / [svd_of_src] of them (solve against
    the identity; (U, sigma, V) as row lists), so every theorem of Properties_C07.v stated for arbitrary oracles applies. *)
 From Coq Require Import List Arith Bool Lia ZArith.
-From Romea Require Import Num LinAlgBModel LinAlgBProofs LsModel LsHistoryProofs SrcEigenDyn SrcEigenDynFacts.
+From Romea Require Import Num LinAlgBModel LinAlgBProofs LsModel LsHistoryProofs SrcEigenDyn SrcEigenDynFacts SrcTieLs.
 From Romea.gen Require Import SrcLs.
 Import ListNotations.
 
@@ -26,15 +26,6 @@ Variable fill : T.
 Variable ldlt_solve : dmat (T:=T) -> dmat (T:=T) -> dmat (T:=T).
 Variable jacobi_svd : dmat (T:=T) -> svd_res (T:=T).
 Implicit Types (s : src_ls (T:=T)) (M : dmat (T:=T)).
-
-(* the generated record read as the model's state *)
-Definition abs (s : src_ls (T:=T)) : ls_state (T:=T) :=
-  mk_ls (dataSize_ s) (estimateSize_ s) (dm_rows (Ac_ s)) (Bc_ s) (dm_cols (J_ s)) (dm_rows (J_ s)) (Y_ s) (W_ s)
-        (dm_rows (inverseJtJ_ s)).
-
-Definition src_dims (s : src_ls (T:=T)) : Prop :=
-  let k := estimateSize_ s in
-  dm_nrows (Ac_ s) = k /\ dm_cols (Ac_ s) = k /\ dm_cols (inverseJtJ_ s) = k /\ dm_shape k k (JtJ_ s) /\ length (JtY_ s) = k.
 
 (* the model's oracles, read off the oracles of the generated terms *)
 Definition inverse_of_src (k : nat) (M : list (list T)) : list (list T) :=
@@ -48,7 +39,7 @@ Definition svd_dims : Prop := forall M, let r := jacobi_svd M in
   dm_shape (dm_nrows M) (dm_nrows M) (svd_U r) /\ dm_shape (dm_nrows M) (dm_nrows M) (svd_V r) /\ length (svd_sigma r) = dm_nrows M.
 
 (* ---------------- constructors ---------------- *)
-Lemma tie_new0 : abs src_new0 = ls_new0.
+Lemma tie_new0 : abs (src_new0 (T:=T)) = ls_new0 (T:=T).
 Proof. reflexivity. Qed.
 Lemma tie_new1 k : abs (src_new1 N k) = ls_new1 N k.
 Proof. reflexivity. Qed.
@@ -187,17 +178,6 @@ Proof.
   - intros a Ha. rewrite dv_get_set by lia. rewrite dot_col_vec by exact Hn. destruct (Nat.eqb_spec a i); subst; reflexivity.
 Qed.
 
-(* ---------------- products with known shapes are the model's products ---------------- *)
-Lemma dm_mul_eq A B n q m : dm_nrows A = n -> dm_cols A = q -> dm_cols B = m ->
-  dm_mul N A B = mkdm m (mmul N n q m (dm_rows A) (dm_rows B)).
-Proof. intros <- <- <-. reflexivity. Qed.
-Lemma dm_mulv_eq A (v : list T) n q : dm_nrows A = n -> dm_cols A = q -> dm_mulv N A v = mvmul N n q (dm_rows A) v.
-Proof. intros <- <-. reflexivity. Qed.
-Lemma dv_add_eq (u v : list T) n : length u = n -> dv_add N u v = vadd N n u v.
-Proof. intros <-. reflexivity. Qed.
-Lemma dm_transpose_eq A n m : dm_nrows A = n -> dm_cols A = m -> dm_transpose N A = mkdm n (mtrans N n m (dm_rows A)).
-Proof. intros <- <-. reflexivity. Qed.
-
 (* Ac_ * inverseJtJ_ * JtY_ + Bc_ *)
 Lemma apply_eq s (inv : dmat (T:=T)) (v : list T) : dm_nrows (Ac_ s) = estimateSize_ s -> dm_cols (Ac_ s) = estimateSize_ s ->
   dm_cols inv = estimateSize_ s ->
@@ -205,8 +185,8 @@ Lemma apply_eq s (inv : dmat (T:=T)) (v : list T) : dm_nrows (Ac_ s) = estimateS
   vadd N (estimateSize_ s) (mvmul N (estimateSize_ s) (estimateSize_ s)
            (mmul N (estimateSize_ s) (estimateSize_ s) (estimateSize_ s) (dm_rows (Ac_ s)) (dm_rows inv)) v) (Bc_ s).
 Proof.
-  intros H1 H2 H3. rewrite (dm_mul_eq _ _ _ _ _ H1 H2 H3).
-  rewrite (dm_mulv_eq _ _ (estimateSize_ s) (estimateSize_ s)); [|unfold dm_nrows; cbn; apply length_mtab|reflexivity].
+  intros H1 H2 H3. rewrite (dm_mul_eq N _ _ _ _ _ H1 H2 H3).
+  rewrite (dm_mulv_eq N _ _ (estimateSize_ s) (estimateSize_ s)); [|unfold dm_nrows; cbn; apply length_mtab|reflexivity].
   apply dv_add_eq. unfold mvmul. apply length_tab.
 Qed.
 
@@ -229,6 +209,14 @@ Proof.
   apply dims_with_JtJ. exact Hd.
 Qed.
 
+Lemma tie_normal' (D : LsDictOK N) s : src_dims s -> (dataSize_ s <= dm_nrows (J_ s))%nat ->
+  src_computeJTJ_ N (src_computeJTY_ N s) = normal_state s.
+Proof.
+  intros Hd Hn. rewrite (tie_computeJTY s Hd Hn). rewrite (tie_computeJTJ D); [reflexivity| |exact Hn].
+  destruct Hd as (H1 & H2 & H3 & H4 & H5). unfold src_dims, with_JtY; cbn. repeat split; auto; try apply H4.
+  unfold ls_JtY. apply length_tab.
+Qed.
+
 Lemma est_ok_rows s : ls_wf (abs s) -> (dataSize_ s <= dm_nrows (J_ s))%nat.
 Proof. intros (HJ & _ & Hn & _). cbn [abs ls_J ls_Y ls_n] in *. unfold dm_nrows. lia. Qed.
 
@@ -238,7 +226,7 @@ Lemma tie_chol (D : LsDictOK N) s : ldlt_dims -> src_dims s -> ls_wf (abs s) -> 
   = ls_estimate_chol N inverse_of_src (abs s).
 Proof.
   intros Hl Hd Hwf Hok. unfold ls_estimate_chol. rewrite Hok.
-  unfold src_estimateUsingCholeskyDecomposition. cbv zeta. rewrite (tie_normal D s Hd (est_ok_rows s Hwf)).
+  unfold src_estimateUsingCholeskyDecomposition. cbv zeta. first [rewrite (tie_normal D s Hd (est_ok_rows s Hwf)) | rewrite (tie_normal' D s Hd (est_ok_rows s Hwf))].
   destruct Hd as (H1 & H2 & H3 & H4 & H5). cbn [fst snd normal_state with_JtY with_JtJ dataSize_ estimateSize_ Ac_ Bc_ J_ Y_ W_ JtJ_ inverseJtJ_ JtY_].
   assert (Hc : dm_cols (ldlt_solve (mkdm (estimateSize_ s) (ls_JtJ N (abs s))) (dm_identity N (estimateSize_ s) (estimateSize_ s))) = estimateSize_ s)
     by (rewrite Hl; reflexivity).
@@ -248,14 +236,14 @@ Qed.
 Lemma dims_chol (D : LsDictOK N) s : ldlt_dims -> src_dims s -> ls_wf (abs s) ->
   src_dims (fst (src_estimateUsingCholeskyDecomposition N ldlt_solve s)).
 Proof.
-  intros Hl Hd Hwf. unfold src_estimateUsingCholeskyDecomposition. cbv zeta. rewrite (tie_normal D s Hd (est_ok_rows s Hwf)).
+  intros Hl Hd Hwf. unfold src_estimateUsingCholeskyDecomposition. cbv zeta. first [rewrite (tie_normal D s Hd (est_ok_rows s Hwf)) | rewrite (tie_normal' D s Hd (est_ok_rows s Hwf))].
   destruct Hd as (H1 & H2 & H3 & H4 & H5). unfold src_dims, normal_state, with_JtY, with_JtJ, ls_JtJ, ls_JtY; cbn.
   repeat split; auto; try apply length_mtab; try apply Forall_mtab; try apply length_tab. apply Hl.
 Qed.
 
 (* ---------------- estimateUsingSVD (relative singular-value threshold) ---------------- *)
-Lemma svd_loop_eq (D : LsDictOK N) k (thr : T) (sigma : list T) : length sigma = k ->
-  fold_left (fun M n => if nltb N thr (dm_get N M n n) then dm_set M n n (ndiv N (nofZ N 1%Z) (dm_get N M n n)) else M)
+Lemma svd_loop_eq k (thr : T) (sigma : list T) : length sigma = k ->
+  fold_left (fun M n => if nltb N thr (dm_get N M n n) then dm_set M n n (ndiv N (n_one N) (dm_get N M n n)) else M)
             (seq 0 k) (dm_of_diag N sigma)
   = mkdm k (mtab k k (fdiag N (svd_inv_diag N thr sigma))).
 Proof.
@@ -264,7 +252,7 @@ Proof.
   rewrite (diag_map_fold N k _ (fun x => if nltb N thr x then ndiv N (n_one N) x else x) _); [|clear H0|exact H0].
   - f_equal. apply mtab_ext. intros a b Ha Hb. unfold dm_get, dm_of_diag; cbn [dm_rows]. rewrite Hs.
     rewrite !mget_mtab by assumption. unfold fdiag, svd_inv_diag. rewrite Nat.eqb_refl. destruct (Nat.eqb a b); reflexivity.
-  - intros M n HM Hn. rewrite (lsd_one N D). destruct (nltb N thr (dm_get N M n n)) eqn:E.
+  - intros M n HM Hn. destruct (nltb N thr (dm_get N M n n)) eqn:E.
     + split; [apply dm_set_shape; [exact HM|lia]|]. intros a b Ha Hb.
       rewrite (dm_get_set N k k) by (try exact HM; lia). reflexivity.
     + split; [exact HM|]. intros a b Ha Hb.
@@ -276,7 +264,7 @@ Lemma tie_svd (D : LsDictOK N) s : svd_dims -> src_dims s -> ls_wf (abs s) -> ls
   = ls_estimate_svd N svd_of_src (abs s).
 Proof.
   intros Hsv Hd Hwf Hok. unfold ls_estimate_svd. rewrite Hok.
-  unfold src_estimateUsingSVD. cbv zeta. rewrite (tie_normal D s Hd (est_ok_rows s Hwf)).
+  unfold src_estimateUsingSVD. cbv zeta. first [rewrite (tie_normal D s Hd (est_ok_rows s Hwf)) | rewrite (tie_normal' D s Hd (est_ok_rows s Hwf))].
   destruct Hd as (H1 & H2 & H3 & H4 & H5).
   cbn [fst snd normal_state with_JtY with_JtJ dataSize_ estimateSize_ Ac_ Bc_ J_ Y_ W_ JtJ_ inverseJtJ_ JtY_].
   unfold svd_of_src. cbn [abs ls_k fst snd].
@@ -286,17 +274,18 @@ Proof.
   destruct (Hsv (mkdm k (ls_JtJ N (abs s)))) as (HU & HV & Hsg). fold r in HU, HV, Hsg. rewrite Hk in HU, HV, Hsg.
   destruct HU as (HU1 & HU2 & _). destruct HV as (HV1 & HV2 & _).
   (* the loop over the diagonal *)
-  assert (Hloop : forall thr, fold_left (fun M n => if nltb N thr (dm_get N M n n) then dm_set M n n (ndiv N (nofZ N 1%Z) (dm_get N M n n)) else M)
+  rewrite ?(lsd_one N D), ?(lsd_one_dec N D).      (* the literal 1 / 1.0 of the source is the model's n_one *)
+  assert (Hloop : forall thr, fold_left (fun M n => if nltb N thr (dm_get N M n n) then dm_set M n n (ndiv N (n_one N) (dm_get N M n n)) else M)
             (seq 0 k) (dm_of_diag N (svd_sigma r)) = mkdm k (mtab k k (fdiag N (svd_inv_diag N thr (svd_sigma r))))).
-  { intros thr. apply (svd_loop_eq D). exact Hsg. }
+  { intros thr. apply svd_loop_eq. exact Hsg. }
   rewrite Hloop.
   (* the pseudo-inverse *)
   assert (Hpinv : forall thr, dm_mul N (dm_mul N (svd_V r) (mkdm k (mtab k k (fdiag N (svd_inv_diag N thr (svd_sigma r)))))) (dm_transpose N (svd_U r))
                   = mkdm k (svd_pinv N k thr (dm_rows (svd_U r), svd_sigma r, dm_rows (svd_V r)))).
   { intros thr. unfold svd_pinv.
-    rewrite (dm_mul_eq (svd_V r) (mkdm k (mtab k k (fdiag N (svd_inv_diag N thr (svd_sigma r))))) k k k HV2 HV1 eq_refl).
-    rewrite (dm_transpose_eq (svd_U r) k k HU2 HU1).
-    rewrite (dm_mul_eq _ _ k k k); [reflexivity|unfold dm_nrows; cbn; apply length_mtab|reflexivity|reflexivity]. }
+    rewrite (dm_mul_eq N (svd_V r) (mkdm k (mtab k k (fdiag N (svd_inv_diag N thr (svd_sigma r))))) k k k HV2 HV1 eq_refl).
+    rewrite (dm_transpose_eq N (svd_U r) k k HU2 HU1).
+    rewrite (dm_mul_eq N _ _ k k k); [reflexivity|unfold dm_nrows; cbn; apply length_mtab|reflexivity|reflexivity]. }
   rewrite Hpinv. cbn [dm_rows dm_cols].
   rewrite (apply_eq_mk s _ _ H1 H2). fold k.
   (* the threshold: epsilon * sigma_0 when estimateSize_ > 0; with estimateSize_ = 0 there is no singular value to compare *)
@@ -307,21 +296,11 @@ Qed.
 
 Lemma dims_svd (D : LsDictOK N) s : svd_dims -> src_dims s -> ls_wf (abs s) -> src_dims (fst (src_estimateUsingSVD N jacobi_svd s)).
 Proof.
-  intros Hsv Hd Hwf. unfold src_estimateUsingSVD. cbv zeta. rewrite (tie_normal D s Hd (est_ok_rows s Hwf)).
+  intros Hsv Hd Hwf. unfold src_estimateUsingSVD. cbv zeta. first [rewrite (tie_normal D s Hd (est_ok_rows s Hwf)) | rewrite (tie_normal' D s Hd (est_ok_rows s Hwf))].
   destruct Hd as (H1 & H2 & H3 & H4 & H5). unfold src_dims, normal_state, with_JtY, with_JtJ; cbn.
   repeat split; auto; try (unfold ls_JtJ; apply length_mtab); try (unfold ls_JtJ; apply Forall_mtab); try (unfold ls_JtY; apply length_tab).
   destruct (Hsv (mkdm (estimateSize_ s) (ls_JtJ N (abs s)))) as ((_ & HU & _) & _ & _).
   etransitivity; [exact HU|]. unfold dm_nrows, ls_JtJ; cbn [dm_rows]. apply length_mtab.
-Qed.
-
-(* ---------------- computeEstimateCovariance:  Ac_ * inverseJtJ_ * Ac_^T * dataVariance ---------------- *)
-Lemma tie_covariance var s : src_dims s ->
-  src_computeEstimateCovariance N var s = (s, mkdm (estimateSize_ s) (ls_covariance N (abs s) var)).
-Proof.
-  intros (H1 & H2 & H3 & _ & _). unfold src_computeEstimateCovariance, ls_covariance. f_equal. cbn [abs ls_k ls_A ls_inv].
-  rewrite (dm_mul_eq _ _ _ _ _ H1 H2 H3). rewrite (dm_transpose_eq _ _ _ H1 H2).
-  rewrite (dm_mul_eq _ _ (estimateSize_ s) (estimateSize_ s) (estimateSize_ s)); [|unfold dm_nrows; cbn; apply length_mtab|reflexivity|reflexivity].
-  unfold dm_scale, dm_nrows; cbn [dm_rows dm_cols]. unfold mmul at 1. rewrite length_mtab. reflexivity.
 Qed.
 
 (* ---------------- weightJAndY_ / weightedEstimate ---------------- *)
@@ -500,7 +479,7 @@ Proof.
   - destruct (ls_weighted_estimate N inverse_of_src (abs s)) as [[s' x]|] eqn:E; [|discriminate]. inversion Hs; subst.
     assert (Hok : ls_est_ok (abs s) = true). { unfold ls_weighted_estimate in E. destruct (ls_est_ok (abs s)); [reflexivity|discriminate]. }
     pose proof (tie_weighted D s Hl Hd Hwf Hok) as E2. rewrite E in E2. inversion E2; subst. split; [reflexivity|split; [reflexivity|]]. apply (dims_weighted D); assumption.
-  - inversion Hs; subst. rewrite (tie_covariance var s Hd). split; [reflexivity|split; [reflexivity|]]. exact Hd.
+  - inversion Hs; subst. rewrite (tie_covariance N var s Hd). split; [reflexivity|split; [reflexivity|]]. exact Hd.
 Qed.
 
 (* SIMULATION: wherever the model's run is defined, the run of the generated transformers produces the same outputs and a state
